@@ -481,7 +481,8 @@ def _workload(tier, rng, shard, nshards):
             tiny = rng.random() < 0.3
             if tiny:
                 REC.cls("C14:align:rounding-noise-sized-jitter")
-            tg.addTier(make_tier(k2, "u", jitter_tier(rng, refs, D, k2, dyadic, tiny), 0.0, 6.0 + 20 * D), rng.choice([None, 0, 1]), reportingMode="silence")
+            # (the third tier's name is sometimes a part of the reference tier's name - "word" beside "words" - or has it as a part)
+            tg.addTier(make_tier(k2, rng.choice(["u", "u", "ef", "re", "refs"]), jitter_tier(rng, refs, D, k2, dyadic, tiny), 0.0, 6.0 + 20 * D), rng.choice([None, 0, 1]), reportingMode="silence")
             if refs and rng.random() < 0.3:
                 # a tier that covers only the stretch before the first (or after the last) reference timestamp - a cropped tier, or
                 # one built without an explicit span - whose outermost boundary is within maxDifference of that timestamp
